@@ -105,7 +105,8 @@ def run(tier, seed):
                                  rule_text="C10: TLC enumerates every interleaving of New/Step/Finish over two instances (spec/Histories.tla); sampled "
                                            "behaviours are replayed in one process and each instance is compared with its solo baseline; plus fresh "
                                            "interpreter processes with different PYTHONHASHSEED",
-                                 extra={"histories_enumerated_by_tlc": len(hs), "histories_model_states": st["states"]})
+                                 extra={"histories_enumerated_by_tlc": len(hs), "histories_model_states": st["states"]},
+                                 mc_states=st["states"])
 
 
 def replay(path):
